@@ -1,8 +1,10 @@
 """C02 - threshold completeness: enough valid authorized signers always suffice."""
 import copy
 import io
+import json
 import os
 import sys
+import warnings
 
 from hypothesis import strategies as st
 
@@ -45,11 +47,52 @@ class _StrictStdout:
         sys.stdout = self.real
 
 
+FLOOD = [0, 0, 0, 0, 0, 0, 0, 63, 64, 65, 130, 600]
+
+
 @st.composite
 def _accepting(draw):
     case = draw(GE.envelopes(force_lower=draw(st.sampled_from([0, 0, -1]))))
     case["enc"] = draw(st.sampled_from(ENCODINGS))
+    case["warn_error"] = draw(st.booleans())
+    # a flood of additional junk entries, placed first / last / sorted into the map
+    n = draw(st.sampled_from(FLOOD))
+    case["flood"] = n
+    case["flood_kind"] = draw(st.sampled_from(["junk-keys-first", "hex-keys-first", "last", "sorted"]))
     return case
+
+
+def _flooded(case, env):
+    n = case.get("flood", 0)
+    if not n:
+        return env
+    kind = case["flood_kind"]
+    extra = {}
+    for i in range(n):
+        k = ("%064x" % i) if kind == "hex-keys-first" else " junk-%04d" % i
+        extra[k] = {"signature": "%0128x" % i} if i % 2 else i
+    extra = {k: v for k, v in extra.items() if k not in env["signatures"]}
+    if kind == "last":
+        sigs = dict(env["signatures"], **extra)
+    else:
+        sigs = dict(extra, **env["signatures"])
+    if kind == "sorted":
+        sigs = {k: sigs[k] for k in sorted(sigs)}
+    return {"signatures": sigs, "signed": env["signed"]}
+
+
+class _WarningsAsErrors:
+    def __init__(self, on):
+        self.on = on
+
+    def __enter__(self):
+        self.cm = warnings.catch_warnings()
+        self.cm.__enter__()
+        if self.on:
+            warnings.simplefilter("error")
+
+    def __exit__(self, *a):
+        self.cm.__exit__(*a)
 
 
 def _nontrivial(case, lo):
@@ -59,18 +102,21 @@ def _nontrivial(case, lo):
 
 
 def check_signable(case):
-    env = GE.to_envelope(case)
+    env = _flooded(case, GE.to_envelope(case))
     expect = RV.signable(env, case["authorized"], case["threshold"], case["gpg"])
-    with _StrictStdout(case["enc"]):
+    with _StrictStdout(case["enc"]), _WarningsAsErrors(case.get("warn_error")):
         observed, exc = RV.outcome(A.verify_signable, env, case["authorized"], case["threshold"], gpg=case["gpg"])
     lo, up = RV.count_bounds(env, case["authorized"], case["gpg"])
     if expect.kind == "accept" and observed != "accept":
         raise Violation("verify_signable raised %s (%s) although %d valid authorized signers meet threshold %d; "
-                        "entries %s, stdout %s" % (observed, str(exc)[:120], lo, case["threshold"], GE.labels(case),
-                                                   case["enc"]),
+                        "entries %s, stdout %s, %d extra junk entries (%s), warnings-as-errors=%s"
+                        % (observed, str(exc)[:120], lo, case["threshold"], GE.labels(case), case["enc"],
+                           case.get("flood", 0), case.get("flood_kind"), case.get("warn_error")),
                         bucket="false reject verify_signable " + observed)
     labs = GE.labels(case) + ["gpg" if case["gpg"] else "raw", "enc=" + case["enc"],
-                              "must-accept" if expect.kind == "accept" else "other"]
+                              "must-accept" if expect.kind == "accept" else "other",
+                              "flood>64" if case.get("flood", 0) > 64 else "flood<=64",
+                              "warnings=error" if case.get("warn_error") else "warnings=default"]
     return {"nontrivial": expect.kind == "accept" and _nontrivial(case, lo), "labels": labs}
 
 
@@ -100,6 +146,18 @@ def check_library(case):
             raise Violation("envelope signed by the library's sign_signable with %d keys rejected for threshold %d: "
                             "%s %s" % (len(seeds), t, observed, str(exc)[:100]),
                             bucket="library signature rejected " + observed)
+    # sign -> edit the signed object in place -> sign again: what the library produced must verify, also after
+    # the envelope went through a file / JSON round trip
+    from vlib import related
+    if related.inplace_mutate(env["signed"]):
+        for i in case["order"]:
+            S.sign_signable(env, C.PrivateKey.from_bytes(seeds[i]))
+        for e2, how in ((env, "in memory"), (json.loads(C.canonserialize(env)), "after a JSON round trip")):
+            with _StrictStdout(case["enc"]):
+                observed, exc = RV.outcome(A.verify_signable, e2, pubs, len(seeds))
+            if observed != "accept":
+                raise Violation("envelope re-signed by the library after an in-place edit is rejected %s: %s %s"
+                                % (how, observed, str(exc)[:100]), bucket="re-signed envelope rejected " + observed)
     # and through a delegation
     T = GM.wrap(GM.signed_part("key_mgr", {"pkg_mgr": {"pubkeys": pubs, "threshold": len(pubs)}}, version=1))
     with _StrictStdout(case["enc"]):
@@ -263,7 +321,8 @@ def check_config(case):
 
 UNITS = [
     Unit("signable", check_signable, strategy=_accepting, quick=1200, thorough=40000, stdout="own",
-         essential=["must-accept", "junk", "malformed", "unauthorized", "valid_nonce", "enc=ascii", "gpg", "raw"],
+         essential=["must-accept", "junk", "malformed", "unauthorized", "valid_nonce", "enc=ascii", "gpg", "raw",
+                    "flood>64", "warnings=error"],
          doc="verify_signable returns whenever the must-count signers meet the threshold, under strict stdout encodings"),
     Unit("library", check_library, strategy=_lib_cases, quick=400, thorough=10000, stdout="own",
          doc="everything signed by wrap_as_signable/sign_signable verifies for every t <= signers"),
